@@ -72,7 +72,27 @@ def target(t):
     return "TWalked"
 
 
+def ocalls(cs):
+    return "; ".join("mkoc %s (%s) [%s]" % (coq_string(c["m"]), target(c["on"]), "; ".join(val(a) for a in (c["args"] or []))) for c in (cs or []))
+
+
+def nl(a):
+    return "[" + "; ".join(str(x) for x in a) + "]%N" if a else "[]"
+
+
 def to_case(o):
+    if o["kind"] == "xattr":
+        e = o["err"]
+        err = "(Some %d%%N)" % e["n"] if e["k"] == "errno" else "None"
+        conn = coq_bool(e["k"] not in ("nil", "errno"))
+        return "CXattr %s %d %s %d%%nat %s %d %s [%s] %s %s %s %s" % (
+            coq_bool(o["list"]), o["cs"], nl(o["value"]), o["drop"], "(Some (%s))" % errv(o["answer"]) if o.get("answer") else "None",
+            o["fid"], bstr(o["name"] or []), ocalls(o["calls"]), coq_bool(o["returned"]), nl(o["got"] or []), err, conn)
+    if o["kind"] == "wga":
+        e = o["err"]
+        err = "(Some %d%%N)" % e["n"] if e["k"] == "errno" else "None"
+        return "CWga %d [%s] %d %s [%s] %s" % (o["version"], "; ".join(bstr(x or []) for x in (o["names"]["l"] or [])), o["fid"],
+                                                coq_bool(o["getattr_fails"]), ocalls(o["calls"]), err)
     if o["kind"] == "errno":
         return "CErr (%s) %d" % (errv(o["answer"]), o["errno"])
     params = "fun k => " + "".join("if (k =? %s)%%string then %s else " % (coq_string(k), val(v)) for k, v in sorted(o["params"].items())) + 'VS "?"'
@@ -87,7 +107,7 @@ def to_case(o):
         bstr(list((o.get("ret") or "").encode("utf-8", "surrogateescape"))), bstr(list((o.get("ans") or "").encode("utf-8", "surrogateescape"))))
 
 
-HEADER = ("From Coq Require Import NArith String List.\nFrom P9V Require Import Base.Str gen.ClientGen Client.ClientModel Client.Errs Client.ClientCases.\n"
+HEADER = ("From Coq Require Import NArith String List.\nFrom P9V Require Import Base.Str gen.ClientGen Client.Chunk Client.ClientModel Client.Errs Client.Composed Client.ClientCases.\n"
           "Import ListNotations.\nOpen Scope string_scope.\nOpen Scope N_scope.\n"
           "Definition cases : list c03case := [\n  %s\n].\n"
           "Definition M := Eval vm_compute in mismatches cases.\nPrint M.\n"
@@ -118,14 +138,14 @@ def run(ctx):
             continue
         for idx in vlib.coq_nat_list(r["P"]):
             o = obs[sh[idx]]
-            ctx.violation("C03:%s" % o.get("op", "errno"), "observed behaviour violates C03 (%s)" % o.get("op", "ExtractErrno"), o)
+            ctx.violation("C03:%s" % o.get("op", o["kind"]), "observed behaviour violates C03 (%s)" % o.get("op", o["kind"]), o)
         for idx in vlib.coq_nat_list(r["M"]):
             o = obs[sh[idx]]
             nm += 1
             if nm <= 5:
                 ctx.note("model/implementation disagree on: %s" % str(o)[:700])
             # the model's call is the specified one (C03_transparent): a disagreement on an operation is a concrete failing input
-            ctx.violation("C03:model:%s" % o.get("op", "errno"), "backend call log / result differs from the proved specification (%s)" % o.get("op", "ExtractErrno"), o)
+            ctx.violation("C03:model:%s" % o.get("op", o["kind"]), "backend call log / result differs from the proved specification (%s)" % o.get("op", o["kind"]), o)
     distinct = len({str(sorted((k, str(v)) for k, v in o.items() if k != "id")) for o in obs})
     ctx.coverage.update({
         "evaluations": len(obs),
